@@ -285,6 +285,7 @@ class Verifier:
         frame = E.Frame(relpath, ci, frame_locals, None, qual)
         sframe = E.Frame("<spec>", ci, dict(frame_locals), None, "spec")
         I.spec_frame = sframe
+        I.root_frame = frame
         # ---- ghost
         for g, init in c.ghost.items():
             run.ghost[g] = self.eval_spec(I, init, sframe)
@@ -302,7 +303,7 @@ class Verifier:
                     run.assume(self.eval_bool(I, ex, sframe, {"self": v}))
         for ex in c.requires:
             run.assume(self.eval_bool(I, ex, sframe))
-        if run.check() != z3.sat:
+        if not run.quick_feasible(5000):
             raise E.PathEnd()
         # ---- snapshot
         run.old_heap = run.snapshot()
@@ -392,7 +393,7 @@ class Verifier:
     # ------------------------------------------------------------------ exits
     def check_exit(self, I, c, fr, run, sframe, result, exc):
         ctx = I.ctx
-        if run.check() != z3.sat:
+        if not run.quick_feasible():
             raise E.PathEnd()
         extra = {"result": result, "ghost": None}
         for g, v in run.ghost.items():
